@@ -24,11 +24,12 @@ def scan(repo):
         for fn in [n for n in ast.walk(m.tree) if isinstance(n, (ast.FunctionDef, ast.Lambda))]:
             selfname = fn.args.args[0].arg if getattr(fn.args, "args", None) else None
             local_objs = set()
+            params = {a.arg for a in getattr(fn.args, "args", [])}
             for n in ast.walk(fn):
-                if isinstance(n, ast.Assign) and isinstance(n.value, ast.Call):
+                if isinstance(n, ast.Assign):
                     for t in n.targets:
-                        if isinstance(t, ast.Name):
-                            local_objs.add(t.id)       # freshly constructed / returned object bound to a local
+                        if isinstance(t, ast.Name) and t.id not in params and isinstance(n.value, (ast.Call, ast.List, ast.Dict, ast.ListComp, ast.Tuple, ast.BinOp)):
+                            local_objs.add(t.id)       # container / object built by this call and bound to a local name
             for n in ast.walk(fn):
                 where = "%s:%d" % (mname, getattr(n, "lineno", 0))
                 if isinstance(n, (ast.Global, ast.Nonlocal)):
@@ -42,7 +43,10 @@ def scan(repo):
                     findings["subscript_stores"].append("%s %s" % (where, ast.unparse(n)))
                 if isinstance(n, ast.Call):
                     if isinstance(n.func, ast.Attribute) and n.func.attr in MUTATORS:
-                        findings["mutator_calls"].append("%s %s" % (where, ast.unparse(n.func)))
+                        recv = n.func.value
+                        # mutating a container that this very call built and holds in a local variable is not shared state
+                        if not (isinstance(recv, ast.Name) and recv.id in local_objs):
+                            findings["mutator_calls"].append("%s %s" % (where, ast.unparse(n.func)))
                     if isinstance(n.func, ast.Name) and n.func.id in ("setattr", "delattr", "exec", "eval", "globals", "vars"):
                         # setattr(self, name, value) inside a method is a store on the instance itself (allowed)
                         onself = n.func.id in ("setattr", "delattr") and n.args and isinstance(n.args[0], ast.Name) and n.args[0].id == "self"
@@ -68,7 +72,7 @@ def obligations(repo):
     # freshly allocated object whose local name is `self`: accepted by the `base.id == "self"` rule above
     ob("attribute stores inside functions target only self", f["non_self_attribute_stores"])
     ob("no subscript store (d[k] = v) in any function", f["subscript_stores"])
-    ob("no call of a mutating container method", f["mutator_calls"])
+    ob("no call of a mutating container method on anything but a local container", f["mutator_calls"])
     ob("no setattr/delattr on objects other than self, no exec/eval/globals/vars", f["setattr_calls"])
     ob("module-level names are bound once", f["multiply_bound_module_names"])
     ob("no mutable class-level attribute", f["mutable_class_attributes"])
